@@ -69,7 +69,11 @@ def pool(rnd, n):
 
 def sc(a, b):
     from bare_script.library import SCRIPT_FUNCTIONS
-    return SCRIPT_FUNCTIONS['systemCompare']([a, b], None)
+    try:
+        r = SCRIPT_FUNCTIONS['systemCompare']([a, b], None)
+        return r if isinstance(r, int) and not isinstance(r, bool) else 98      # 98: not a comparison result
+    except Exception:  # pylint: disable=broad-except
+        return 99                                                              # 99: the comparison raised
 
 
 def matrix_cases(vals, shards):
@@ -95,7 +99,10 @@ def datasort_case(rnd, vals):
     spec = [[f, rnd.random() < 0.4] for f in rnd.sample(fields, rnd.randint(1, 3))]
     ids = {id(r): i + 1 for i, r in enumerate(rows)}
     inp = [A.aval(r) for r in rows]
-    res = sort_data(list(rows), [s if s[1] else [s[0]] for s in spec])
+    try:
+        res = sort_data(list(rows), [s if s[1] else [s[0]] for s in spec])
+    except Exception:  # pylint: disable=broad-except
+        res = []          # the consumer raised: not a permutation of the input
     return {'kind': 'datasort', 'inp': inp, 'out': [A.aval(r) for r in res], 'perm': [ids.get(id(r), 0) for r in res],
             'fields': [{'name': A.cps(f), 'desc': d} for f, d in spec]}
 
@@ -108,7 +115,11 @@ def consumer_cases(rnd, vals, count):
     import copy
 
     def ev(op, a, b):
-        return evaluate_expression({'binary': {'op': op, 'left': {'variable': 'a'}, 'right': {'variable': 'b'}}}, {'globals': {'a': a, 'b': b}})
+        try:
+            r = evaluate_expression({'binary': {'op': op, 'left': {'variable': 'a'}, 'right': {'variable': 'b'}}}, {'globals': {'a': a, 'b': b}})
+            return r if isinstance(r, bool) else (op == '!=')      # a non-boolean result cannot be the sign test (made visible as a wrong boolean)
+        except Exception:  # pylint: disable=broad-except
+            return op == '!='
     for _ in range(count):
         k = rnd.random()
         if k < 0.3:
@@ -127,7 +138,12 @@ def consumer_cases(rnd, vals, count):
             src = vals[:14] if rnd.random() < 0.4 else vals
             arr = [copy.deepcopy(rnd.choice(src)) for _ in range(rnd.randint(0, 9))]
             inp = [A.aval(x) for x in arr]
-            res = SF['arraySort']([arr], None)
+            try:
+                res = SF['arraySort']([arr], None)
+            except Exception:  # pylint: disable=broad-except
+                res = None
+            if not isinstance(res, list):
+                res = ['the consumer raised or returned no array']
             out.append({'kind': 'sorted', 'inp': inp, 'out': [A.aval(x) for x in res]})
         elif k < 0.6:
             out.append(datasort_case(rnd, vals))
@@ -135,7 +151,10 @@ def consumer_cases(rnd, vals, count):
             src = vals[:14] if rnd.random() < 0.6 else vals
             args = [rnd.choice(src) for _ in range(rnd.randint(0, 6))]
             which = rnd.choice(['min', 'max'])
-            res = SF['mathMin' if which == 'min' else 'mathMax'](list(args), None)
+            try:
+                res = SF['mathMin' if which == 'min' else 'mathMax'](list(args), None)
+            except Exception:  # pylint: disable=broad-except
+                res = 'the consumer raised'
             out.append({'kind': 'minmax', 'which': which, 'args': [A.aval(x) for x in args], 'out': A.aval(res)})
         else:
             arr = [rnd.choice(vals[:30]) for _ in range(rnd.randint(0, 8))]
@@ -164,6 +183,8 @@ def consumer_cases(rnd, vals, count):
                     res = SF['arrayLastIndexOf']([arr, val], None)
             except ValueArgsError as exc:
                 res = exc.return_value
+            except Exception:  # pylint: disable=broad-except
+                res = None
             out.append({'kind': 'indexof', 'which': which, 'arr': [A.aval(x) for x in arr], 'val': A.aval(val), 'start': start,
                         'out': int(res) if res is not None else -99})
     return out
